@@ -66,6 +66,11 @@ type vhtunScenario struct {
 	// connection; every client must read back exactly what it wrote (a connection handed to the wrong goroutine, two copiers on
 	// one stream, a stream left unserved all show)
 	EchoBurst int `json:"echo_burst"`
+	// Endpoint overrides the endpoint id (ids with characters a URL gives a meaning to: ? # % / space); Decoys are further
+	// endpoints with a listener each - what a careless parser would fold the id into - whose listeners must never see a
+	// connection
+	Endpoint string   `json:"endpoint"`
+	Decoys   []string `json:"decoys"`
 }
 
 type vhtunInput struct {
@@ -97,6 +102,7 @@ type vhtunScenarioOut struct {
 	Released   bool           `json:"released"`
 	BurstBad   []string       `json:"burst_bad,omitempty"` // what went wrong in the echo burst, per failing client
 	BurstN     int            `json:"burst_n,omitempty"`
+	DecoyHits  []string       `json:"decoy_hits,omitempty"` // decoy endpoints whose listener accepted a connection
 	Failed     bool           `json:"failed"` // a connection already failed; later checks were skipped
 	Goroutines string         `json:"goroutines,omitempty"`
 }
@@ -187,6 +193,9 @@ func vhtunRead(c net.Conn, want int, bufs []int, zero *int) ([]byte, error) {
 }
 
 type vhtunEnv struct {
+	decoyMu   sync.Mutex
+	decoyHits []string
+
 	nodes    []*cluster.Node
 	dial     func() (net.Conn, error) // the client end
 	accept   func() (net.Conn, error) // the matching upstream end
@@ -208,6 +217,9 @@ func (e *vhtunEnv) close() {
 func vhtunSetup(sc vhtunScenario) (*vhtunEnv, error) {
 	env := &vhtunEnv{}
 	endpoint := "vh-" + sc.ID
+	if sc.Endpoint != "" {
+		endpoint = sc.Endpoint
+	}
 	a := cluster.NewNode()
 	a.Start()
 	env.cleanups = append(env.cleanups, a.Stop)
@@ -225,6 +237,26 @@ func vhtunSetup(sc vhtunScenario) (*vhtunEnv, error) {
 	// ---- exit side
 	ctx, cancel := context.WithCancel(context.Background())
 	env.cleanups = append(env.cleanups, cancel)
+	for _, d := range sc.Decoys {
+		d := d
+		dln, err := up.Listen(ctx, d)
+		if err != nil {
+			return env, fmt.Errorf("decoy listen %q: %w", d, err)
+		}
+		env.cleanups = append(env.cleanups, func() { _ = dln.Close() })
+		go func() {
+			for {
+				c, err := dln.Accept()
+				if err != nil {
+					return
+				}
+				env.decoyMu.Lock()
+				env.decoyHits = append(env.decoyHits, d)
+				env.decoyMu.Unlock()
+				_ = c.Close()
+			}
+		}()
+	}
 	acceptWithTimeout := func(ln net.Listener) func() (net.Conn, error) {
 		return func() (net.Conn, error) {
 			type res struct {
@@ -610,6 +642,11 @@ func vhtunRunScenario(sc vhtunScenario) (out vhtunScenarioOut) {
 	}()
 	env, err := vhtunSetup(sc)
 	defer env.close()
+	defer func() {
+		env.decoyMu.Lock()
+		out.DecoyHits = append([]string{}, env.decoyHits...)
+		env.decoyMu.Unlock()
+	}()
 	if err != nil {
 		out.Panic = "setup: " + err.Error()
 		return
